@@ -18,13 +18,13 @@ def accessor_contracts():
     C = {}
     for f in ('sequence', 'isotope_mods', 'static_mods', 'labile_mods', 'unknown_mods', 'nterm_mods', 'cterm_mods',
               'internal_mods', 'intervals', 'charge', 'charge_adducts'):
-        C[PA + 'has_' + f] = dict(params=dict(self='Annotation'), returns='bool', pure=True,
+        C[PA + 'has_' + f] = dict(params=dict(self='Annotation'), returns='bool', pure=True, axioms=[],
                                   ensures=[('def', 'result == (self._%s is not None)' % f)] if f != 'sequence' else
                                   [('def', 'result == True')])
-        C[PA + f] = dict(params=dict(self='Annotation'), returns=RECORDS['Annotation']['_' + f], pure=True, property=True,
+        C[PA + f] = dict(params=dict(self='Annotation'), returns=RECORDS['Annotation']['_' + f], pure=True, property=True, axioms=[],
                          ensures=[('def', 'same(result, self._%s)' % f)])
     C[PA + 'has_mods'] = dict(
-        params=dict(self='Annotation'), returns='bool', pure=True,
+        params=dict(self='Annotation'), returns='bool', pure=True, axioms=[],
         ensures=[('def', 'result == (' + ' or '.join('self._%s is not None' % f for f in
                   ('isotope_mods', 'static_mods', 'labile_mods', 'unknown_mods', 'nterm_mods', 'cterm_mods', 'internal_mods',
                    'intervals', 'charge', 'charge_adducts')) + ')')])
@@ -42,7 +42,7 @@ def setter_contracts(trusted=None):
     for f in MOD_FIELDS + ('internal_mods', 'intervals', 'charge'):
         others = [g for g in ty if g != '_' + f]
         C[PA + f + '.setter'] = dict(
-            params=dict(self='Annotation', value='None'), returns='None', mutates=['self'],
+            params=dict(self='Annotation', value='None'), returns='None', mutates=['self'], axioms=[],
             ensures=[('field-cleared', 'self_final._%s is None' % f),
                      ('nothing-else', ' and '.join('same(self_final.%s, self.%s)' % (g, g) for g in others))],
             raises={})
@@ -58,7 +58,7 @@ def pop_contracts(trusted=None):
     for f in MOD_FIELDS + ('internal_mods', 'intervals', 'charge'):
         others = [g for g in ty if g != '_' + f]
         C[PA + 'pop_' + f] = dict(
-            params=dict(self='Annotation'), returns=ty['_' + f], mutates=['self'],
+            params=dict(self='Annotation'), returns=ty['_' + f], mutates=['self'], axioms=[],
             ensures=[('returns-the-field', 'same(result, self._%s)' % f), ('field-cleared', 'self_final._%s is None' % f),
                      ('nothing-else', ' and '.join('same(self_final.%s, self.%s)' % (g, g) for g in others))],
             raises={})
